@@ -364,10 +364,10 @@ pub fn oracle_c12(cfg: &BerCfg, obs: &BerObs) -> (Vec<Violation>, OracleStats) {
 pub fn generate(seed: u64, run: u64) -> BerCfg {
     let mut g = Stream::new(keyed(seed, &[run]), "c12-config");
     let (k, r) = loop {
-        let n = *g.pick(&[6usize, 8, 9, 10, 12, 12, 15, 16, 18, 18, 20, 24, 24, 30]);
+        let n = *g.pick(&[6usize, 8, 9, 10, 12, 12, 15, 16, 18, 18, 20, 24, 24, 30, 36, 40, 42, 45, 48, 54, 56, 60, 63, 72]);
         let r = 1 + g.below(10.min(n as u64 - 1)) as usize;
         let k = n - r;
-        if (1..=20).contains(&k) {
+        if (1..=70).contains(&k) {
             break (k, r);
         }
     };
@@ -591,7 +591,7 @@ pub fn describe_cal(cfg: &BerCfg) -> String {
 
 pub fn main(opts: &Opts) -> ! {
     let (n_runs, budget, recheck, big) = match opts.tier {
-        Tier::Quick => ((1500.0 * opts.scale) as u64, 240.0, 5, false),
+        Tier::Quick => ((6000.0 * opts.scale) as u64, 240.0, 3, false),
         Tier::Thorough => ((60_000.0 * opts.scale) as u64, 2400.0, 2, true),
     };
     let oracle = |c: &BerCfg, o: &BerObs| oracle_c12(c, o);
@@ -611,9 +611,11 @@ pub fn main(opts: &Opts) -> ! {
         let cfg = &cals[i as usize];
         let obs = run_one(cfg);
         let label = describe_cal(cfg);
-        let (mut v, rep) = check_noise(cfg, &obs, &label);
-        // the structural oracle applies to calibration runs too
-        let (v2, _) = oracle_c12(cfg, &obs);
+        // the structural oracle applies to calibration runs too, and goes first: frames whose
+        // signs do not complete to a codeword yield no noise samples, which is a property
+        // violation and not a calibration problem
+        let (mut v, _) = oracle_c12(cfg, &obs);
+        let (v2, rep) = check_noise(cfg, &obs, &label);
         v.extend(v2);
         if !matches!(obs.outcome.result, RunResult::Done(_)) {
             v.push(Violation::new("calibration-size", format!("{}: run ended with {}", label, obs.outcome.result.kind())));
@@ -627,6 +629,10 @@ pub fn main(opts: &Opts) -> ! {
         cal_frames += nfr;
         if let Some(vio) = v.into_iter().next() {
             if vio.kind == "calibration-size" {
+                if !violations.is_empty() {
+                    // already explained by a reported violation; nothing more to learn here
+                    continue;
+                }
                 harness_error(&format!("calibration run unusable: {}", vio.detail));
             }
             let f = Failure { run: 1_000_000 + i, cfg: cals[i as usize].clone(), violation: vio.clone(), trace: vec![] };
